@@ -3248,6 +3248,21 @@ func (c *pipelineConnClient) PendingRequests() int {
 
 var errPipelineConnStopped = errors.New("pipeline connection has been stopped")
 
+// eofTrackingReader remembers whether the wrapped reader has reported io.EOF.
+type eofTrackingReader struct {
+	io.Reader
+
+	eof atomic.Bool
+}
+
+func (r *eofTrackingReader) Read(p []byte) (int, error) {
+	n, err := r.Reader.Read(p)
+	if err == io.EOF {
+		r.eof.Store(true)
+	}
+	return n, err
+}
+
 var DefaultTransport RoundTripper = &transport{}
 
 type transport struct{}
@@ -3344,7 +3359,11 @@ func (t *transport) RoundTrip(hc *HostClient, req *Request, resp *Response) (ret
 	if customStreamBody && resp.bodyStream != nil {
 		rbs := resp.bodyStream
 		var closed atomic.Bool
-		resp.bodyStream = newCloseReaderWithError(rbs, func(wErr error) error {
+		// A body that is still being read from the connection must be consumed
+		// up to its end before the connection may serve another request.
+		_, fromConn := rbs.(*requestStream)
+		er := &eofTrackingReader{Reader: rbs}
+		resp.bodyStream = newCloseReaderWithError(er, func(wErr error) error {
 			if !closed.CompareAndSwap(false, true) {
 				return nil
 			}
@@ -3352,7 +3371,7 @@ func (t *transport) RoundTrip(hc *HostClient, req *Request, resp *Response) (ret
 			if r, ok := rbs.(*requestStream); ok {
 				releaseRequestStream(r)
 			}
-			if closeConn || resp.ConnectionClose() || wErr != nil {
+			if closeConn || resp.ConnectionClose() || wErr != nil || (fromConn && !er.eof.Load()) {
 				hc.CloseConn(cc)
 			} else {
 				hc.ReleaseConn(cc)
